@@ -99,6 +99,101 @@ def check_generated(ctx, n, tmp):
     return viol
 
 
+I_, M_ = "Identifier", "Measure"
+WIDE = [("Id_1", "Integer", I_, False), ("Id_2", "Integer", I_, False), ("Me_d", "Date", M_, True), ("Me_d2", "Date", M_, True), ("Me_n", "Number", M_, True),
+        ("Me_n2", "Number", M_, True), ("Me_i", "Integer", M_, True), ("Me_i2", "Integer", M_, True), ("Me_s", "String", M_, True), ("Me_s2", "String", M_, True),
+        ("Me_b", "Boolean", M_, True), ("Me_b2", "Boolean", M_, True), ("Me_t", "Time_Period", M_, True), ("Me_t2", "Time_Period", M_, True)]
+WIDE_SCRIPTS = ["DS_r <- DS_L;", "DS_r <- DS_L[calc Me_9 := Me_n * 2 + Me_i][filter Id_1 > 10];", "DS_r <- DS_L[keep Me_s2, Me_i2, Me_d2, Me_b2, Me_t2];",
+                "DS_r <- count(DS_L group by Id_2);"]
+
+
+def wide_frame(n, n_rare):
+    """n rows; the last n_rare rows use the rarer (still valid) spelling of each type, so that anything deciding a column's
+    reading from a leading sample of rows is sensitive to the row order"""
+    rows = []
+    for i in range(n):
+        rare = i >= n - n_rare
+        rows.append({"Id_1": i, "Id_2": i % 5,
+                     "Me_d": ("2021-03-%02d 10:30:00" % (i % 28 + 1)) if rare else "2020-01-%02d" % (i % 28 + 1),
+                     "Me_d2": "2019-12-%02d" % (i % 28 + 1),
+                     "Me_n": (i + 0.5) if rare else float(i % 50), "Me_n2": float(-(i % 13)),
+                     "Me_i": None if rare and i % 2 else i % 7, "Me_i2": (i * 3) % 11,
+                     "Me_s": ("%03d" % i) if not rare else 'x,y"z', "Me_s2": "s%d" % (i % 17),
+                     "Me_b": None if rare else bool(i % 2), "Me_b2": bool(i % 3 == 0),
+                     "Me_t": "2020-Q%d" % (i % 4 + 1) if not rare else "2020-M%02d" % (i % 12 + 1), "Me_t2": "20%02d" % (i % 30)})
+    return pd.DataFrame(rows).astype(object)
+
+
+def check_wide(ctx, n, tmp):
+    """large inputs with pairs of same-typed columns and late rare spellings: rows/columns permuted, DataFrame and CSV forms"""
+    st = engine.structures(engine.ds_struct("DS_L", WIDE))
+    df = wide_frame(n, max(10, n // 100))
+    viol = 0
+    for s in WIDE_SCRIPTS:
+        for form in ("df", "csv"):
+            sigs = {}
+            for kind in ("base", "rows-shuffled", "rare-first", "cols-shuffled", "rows+cols"):
+                d = df
+                if kind in ("rows-shuffled", "rows+cols"):
+                    d = permute_df(d, ctx.rng, rows=True, cols=False)
+                if kind == "rare-first":
+                    d = d.iloc[::-1].reset_index(drop=True)
+                if kind in ("cols-shuffled", "rows+cols"):
+                    d = permute_df(d, ctx.rng, rows=False, cols=True)
+                if form == "csv":
+                    p = Path(tmp) / f"wide_{kind}.csv"
+                    df_to_csv(d, p)
+                    dp = {"DS_L": p}
+                else:
+                    dp = {"DS_L": d}
+                sigs[kind] = result_sig(engine.run_case(s, st, dp))
+                ctx.count(("wide", s, form, kind))
+            if len(set(sigs.values())) > 1:
+                viol += 1
+                bad = [k for k, v in sigs.items() if v != sigs["base"]]
+                ctx.violation(f"wide:{form}:" + "+".join(bad), f"{s} over {n} rows ({form} input) gives different datapoints after permuting input rows/columns ({bad})",
+                              {"script": s, "rows": n, "form": form, "variants_differing_from_base": bad, "base": str(sigs["base"])[:500],
+                               "other": str(sigs[bad[0]])[:500]})
+    return viol
+
+
+def check_zoo(ctx, draws, tmp):
+    """operator templates beyond the modelled subset (joins, exists_in, aggregations, validation, time operators…)"""
+    import zoo
+    viol = 0
+    for name, script, st, dps in zoo.cases(ctx.rng, n_draws=draws):
+        if any(k in script for k in TIE_SENSITIVE):
+            rows = False
+        else:
+            rows = True
+        base = engine.run_case(script, st, dps)
+        if not base["ok"]:
+            continue
+        sig0 = result_sig(base)
+        for kind in ("df", "csv"):
+            perm = {n_: permute_df(df, ctx.rng, rows=rows) for n_, df in dps.items()}
+            if kind == "csv":
+                csvp = {}
+                for n_, df in perm.items():
+                    p = Path(tmp) / f"z_{n_}.csv"
+                    df_to_csv(df, p)
+                    csvp[n_] = p
+                    p0 = Path(tmp) / f"z0_{n_}.csv"
+                    df_to_csv(dps[n_], p0)
+                r = engine.run_case(script, st, csvp)
+                ref = result_sig(engine.run_case(script, st, {n_: Path(tmp) / f"z0_{n_}.csv" for n_ in dps}))
+            else:
+                r = engine.run_case(script, st, perm)
+                ref = sig0
+            ctx.count(("zoo", name, kind, repr(sorted((k, v.to_json()) for k, v in perm.items()))))
+            if result_sig(r) != ref:
+                viol += 1
+                ctx.violation(f"zoo:{name}:{kind}", f"{script.strip()[-160:]} gives different datapoints after permuting input rows/columns ({kind})",
+                              {"template": name, "script": script, "inputs": {k: v.to_dict(orient="list") for k, v in dps.items()},
+                               "permuted": {k: v.to_dict(orient="list") for k, v in perm.items()}, "base": str(ref)[:600], "other": str(result_sig(r))[:600]})
+    return viol
+
+
 def read_csv_raw(path):
     with open(path, newline="", encoding="utf-8-sig") as f:
         rows = list(csv.reader(f))
@@ -162,10 +257,14 @@ def run(ctx):
     with tempfile.TemporaryDirectory(prefix="c33_") as tmp:
         v1 = check_generated(ctx, 40 if q else 1500, tmp)
         v2 = check_corpus(ctx, 30 if q else 2300, tmp)
+        v3 = check_wide(ctx, 3000 if q else 60000, tmp)
+        v4 = check_zoo(ctx, 1 if q else 25, tmp)
     ctx.cov["rule"] = ("each generated script (exprk generator) is re-run on all row permutations of its inputs when every input has ≤ 3 rows "
                        "(capped at 40 combinations), on random row permutations + shuffled column orders as DataFrames and as CSV files; each "
                        "sampled corpus script on shuffled rows/columns of its CSV inputs (rows are not shuffled for scripts with analytic "
-                       "functions, whose ties VTL leaves open; current_date/random scripts skipped); distinct = (script, variant)")
+                       "functions, whose ties VTL leaves open; current_date/random scripts skipped); a wide dataset (pairs of same-typed columns of every scalar type, rarer "
+                       "valid spellings only in the last 1% of rows) of 3000/60000 rows under 5 row/column orders x DataFrame/CSV; every operator-zoo template "
+                       "(joins, exists_in, aggregations, analytic, validation, time operators, conditionals…) on permuted inputs; distinct = (script, variant)")
     ctx.oblige("predicate evaluated on the engine: permuted inputs give the same datapoints", True)
     ctx.trusted.append("canonical comparison of results as sorted tuples of repr'd canonical values (engine.canon_dataset)")
 
